@@ -17,8 +17,12 @@ REPO = os.environ.get("VERIF_REPO", "/repo")
 BUILD = os.path.join(VERIF, ".build")
 SPEC = os.path.join(VERIF, "spec")
 HARNESS = os.path.join(VERIF, "harness", "cpp")
-EVID = os.path.join(VERIF, "evidence")
-REPLAYS = os.path.join(VERIF, "evidence", "replays")
+# evidence/ describes runs against /repo itself; runs against a scratch copy (VERIF_REPO, used to try the
+# checks on seeded changes) write elsewhere so that committed evidence is never produced from another tree
+_EVROOT = os.path.join(VERIF, "evidence") if os.path.realpath(REPO) == "/repo" else \
+    os.path.join(os.environ.get("VERIF_TMP", "/tmp"), "verif-evidence-" + hashlib.sha256(REPO.encode()).hexdigest()[:8])
+EVID = _EVROOT
+REPLAYS = os.path.join(_EVROOT, "replays")
 GUARD = "BLOCH_VERIF"
 JOBS = int(os.environ.get("VERIF_JOBS", "16"))
 
@@ -118,7 +122,7 @@ def build_objs(variant="plain", with_cli=False, extra_defs=()):
 
 def _gc_build(keep=6):
     """Bound disk use: keep only the most recent object/bin directories."""
-    for sub in ("obj", "bin"):
+    for sub in ("obj", "bin", "tlc"):
         root = os.path.join(BUILD, sub)
         if not os.path.isdir(root):
             continue
@@ -197,7 +201,7 @@ def tlc(module, cfg, env=None, workers=None, timeout=1800, extra=(), simulate=No
     r = TlcResult()
     t0 = time.time()
     try:
-        cmd = ["java", "-Xmx" + heap, "-XX:+UseParallelGC"]
+        cmd = ["java", "-Xmx" + heap, "-Xss128m", "-XX:+UseParallelGC"]
         if java_opts:
             cmd += java_opts
         cmd += ["-cp", "/opt/veriftools/tla/tla2tools.jar:/opt/veriftools/tla/CommunityModules-deps.jar",
